@@ -42,6 +42,12 @@ Grammar (anything else raises `Untranslatable` = "tie broken", never silently sk
     `<fn>_list … (labels : List String) := List.foldlM step [] labels` (labels outside the table → none)
   * 2×2 matrix code of `_torch_polar`: `torch.linalg.svd(m)` (an abstract parameter `svd`), `A @ B`, `.T`,
     `.conj()` (real: identity), `S.diag()`, `.to(dtype=…)` (identity), `M * S` (column scaling = M·diag S)
+  * the extraction part of `fit_aberrations_from_shifts` (everything after `… = _torch_polar(M)`), with the two
+    polar factors as matrix parameters: `M[i, j]`, `-M`, torch.abs, torch.remainder (→ `rem1`, proved exact on
+    the reachable range), a branch on a tensor comparison (`if 2 * torch.abs(…) > math.pi:` → Lean `if`, the
+    assigned variables merged), `.item()`, a dict literal with literal keys.  The plumbing before it (k-grid,
+    mask, `basis = kvec * wavelength`, `torch.linalg.lstsq(basis, shifts)[0]`) must match a fixed template, else
+    the translator raises; it is modelled by hand (`lstsq2`) and tied by the correspondence.
 Output is deterministic (no timestamps).
 """
 import ast
@@ -97,6 +103,12 @@ class DynM:
 
 class DynV:
     """a Lean expression of type R × R (the two singular values)"""
+    def __init__(self, code):
+        self.code = code
+
+
+class DynBool:
+    """a Lean expression of type Bool"""
     def __init__(self, code):
         self.code = code
 
@@ -231,9 +243,15 @@ class Interp:
         return [self.ev(e, sc) for e in node.elts]
 
     def ev_Dict(self, node, sc):
-        if node.keys:
-            bad(node, "only the empty dict literal is in the grammar")
-        return OpenDict()
+        d = OpenDict()
+        for k, v in zip(node.keys, node.values):
+            if k is None:
+                bad(node, "dict unpacking")
+            key = self.ev(k, sc)
+            if not isinstance(key, str):
+                bad(node, "dict literal with a non-literal key")
+            d.known[key] = to_dyn(self.ev(v, sc), node)
+        return d
 
     def ev_JoinedStr(self, node, sc):
         out = ""
@@ -264,6 +282,8 @@ class Interp:
     def ev_UnaryOp(self, node, sc):
         v = self.ev(node.operand, sc)
         if isinstance(node.op, ast.USub):
+            if isinstance(v, DynM):
+                return DynM(f"(QuantemModel.Aberration.M2.neg {v.code})")
             if is_num(v):
                 return -v
             return Dyn(f"(-{to_dyn(v, node).code})")
@@ -316,6 +336,17 @@ class Interp:
             if not isinstance(a, str):
                 bad(node, "`in` on an environment with a non-static key")
             return Presence(b, a)
+        if (isinstance(a, Dyn) or isinstance(b, Dyn)) and (isinstance(a, Dyn) or is_num(a)) and (isinstance(b, Dyn) or is_num(b)):
+            x, y = to_dyn(a, node).code, to_dyn(b, node).code
+            if isinstance(op, ast.Gt):
+                return DynBool(f"(Num.ltb {y} {x})")
+            if isinstance(op, ast.Lt):
+                return DynBool(f"(Num.ltb {x} {y})")
+            if isinstance(op, ast.GtE):
+                return DynBool(f"(Num.leb {y} {x})")
+            if isinstance(op, ast.LtE):
+                return DynBool(f"(Num.leb {x} {y})")
+            bad(node, "comparison operator on tensor values")
         for v in (a, b):
             if isinstance(v, (Dyn, Env, OpenDict)):
                 bad(node, "comparison on a tensor value")
@@ -348,6 +379,11 @@ class Interp:
     def ev_Subscript(self, node, sc):
         base = self.ev(node.value, sc)
         idx = self.ev(node.slice, sc)
+        if isinstance(base, DynM):
+            fld = {(0, 0): "a", (0, 1): "b", (1, 0): "c", (1, 1): "d"}.get(idx if isinstance(idx, tuple) else None)
+            if fld is None:
+                bad(node, "matrix subscript other than M[i, j] with literal i, j in {0, 1}")
+            return Dyn(f"{base.code}.{fld}")
         if isinstance(base, Env):
             if not isinstance(idx, str):
                 bad(node, "environment subscript with a non-static key")
@@ -420,6 +456,10 @@ class Interp:
             return (DynM(f"{c}.1"), DynV(f"{c}.2.1"), DynM(f"{c}.2.2"))
         if name == "torch.stack" and len(args) == 1 and kwargs.get("dim") == -1 and isinstance(args[0], DynList):
             return args[0]
+        if name == "torch.abs" and len(args) == 1 and not kwargs:
+            return Dyn(f"(Num.abs {to_dyn(args[0], node).code})")
+        if name == "torch.remainder" and len(args) == 2 and not kwargs:
+            return Dyn(f"(QuantemModel.Aberration.rem1 {to_dyn(args[0], node).code} {to_dyn(args[1], node).code})")
         if name == "torch.zeros_like" and len(args) == 1:
             return Dyn("Num.zero")
         if name == "torch.tensor" and len(args) == 1 and set(kwargs) <= {"device", "dtype"}:
@@ -461,6 +501,8 @@ class Interp:
     def call_method(self, node, base, attr, args, kwargs):
         if isinstance(base, Dyn) and attr == "square" and not args and not kwargs:
             return Dyn(f"({base.code} * {base.code})")
+        if isinstance(base, Dyn) and attr == "item" and not args and not kwargs:
+            return base
         if isinstance(base, (DynM, DynV)) and attr == "conj" and not args and not kwargs:
             return base                      # real matrices
         if isinstance(base, (DynM, DynV)) and attr == "to" and not args and set(kwargs) <= {"dtype"}:
@@ -722,9 +764,29 @@ class Interp:
         t = self.ev(s.test, sc)
         if isinstance(t, Guard):
             return self.guard_block(s, t, sc)
+        if isinstance(t, DynBool):
+            return self.dyn_if(s, t, sc)
         if isinstance(t, (Dyn, Env, OpenDict, Presence)):
             bad(s, "branch on a tensor value")
         self.exec_block(s.body if t else s.orelse, sc)
+
+    def dyn_if(self, s, cond, sc):
+        """a branch on a tensor comparison: both arms are evaluated, re-assigned variables are merged"""
+        arms = []
+        for body in (s.body, s.orelse):
+            sc2 = dict(sc)
+            self.exec_block(body, sc2)
+            arms.append(sc2)
+        for n in sc:
+            a, b = arms[0][n], arms[1][n]
+            if a is sc[n] and b is sc[n]:
+                continue
+            if isinstance(a, Dyn) and isinstance(b, Dyn):
+                sc[n] = Dyn(f"(if {cond.code} then {a.code} else {b.code})")
+            elif isinstance(a, DynM) and isinstance(b, DynM):
+                sc[n] = DynM(f"(if {cond.code} then {a.code} else {b.code})")
+            else:
+                bad(s, f"variable {n} re-assigned in a tensor branch to a value that cannot be merged")
 
     def guard_block(self, s, g, sc):
         if s.orelse:
@@ -835,6 +897,45 @@ class Interp:
         elif lean_name == name.lstrip("_"):
             self.translated[name] = Translated(lean_name, params, ret)
         return ret
+
+
+FIT_PREFIX = [
+    "device = shifts_ang.device",
+    "kxa, kya = spatial_frequencies(gpts, sampling, device=device)",
+    "kvec = torch.dstack((kxa[bf_mask], kya[bf_mask])).view((-1, 2))",
+    "basis = kvec * wavelength",
+    "M = torch.linalg.lstsq(basis.cpu(), shifts_ang.cpu(), rcond=None)[0]",
+    "M_rotation, M_aberration = _torch_polar(M)",
+]
+
+
+def translate_fit_tail(it, name="fit_aberrations_from_shifts", lean_name="fit_aberrations_from_shifts_extract"):
+    """everything after `M_rotation, M_aberration = _torch_polar(M)`; the plumbing before it must match FIT_PREFIX"""
+    fn = it.mod.funcs.get(name)
+    if fn is None:
+        raise Untranslatable(f"function {name} not found in {it.mod.rel}")
+    body = [st for st in fn.body if not (isinstance(st, ast.Expr) and isinstance(st.value, ast.Constant))]
+    n = len(FIT_PREFIX)
+    want = [ast.dump(ast.parse(line).body[0]) for line in FIT_PREFIX]
+    got = [ast.dump(st) for st in body[:n]]
+    if got != want:
+        k = next((i for i, (a, b) in enumerate(zip(got, want)) if a != b), min(len(got), len(want)))
+        raise Untranslatable(f"{name}: the plumbing before the extraction no longer matches the template at statement {k + 1}: "
+                             f"{ast.unparse(body[k]) if k < len(body) else '<missing>'!r} (expected {FIT_PREFIX[k]!r})")
+    params = [("M_rotation", "M"), ("M_aberration", "M")]
+    sc = {"M_rotation": DynM("M_rotation"), "M_aberration": DynM("M_aberration")}
+    it.cur = (lean_name, params)
+    it.guards = []
+    try:
+        it.exec_block(body[n:], sc)
+        raise Untranslatable(f"{name}: no return reached")
+    except _Return as r:
+        v = r.v
+    if not (isinstance(v, OpenDict) and v.rest is None and v.known):
+        raise Untranslatable(f"{name}: does not return a dict literal")
+    text = "[" + ",\n   ".join(f"({lean_str(k)}, {e.code})" for k, e in v.known.items()) + "]"
+    it.defs.append(it.render_def(lean_name, params, "List (String × R)", text))
+    return list(v.known)
 
 
 def local_literals(fn, names):
@@ -950,6 +1051,10 @@ def generate():
                            ("aberration_surface_cartesian_gradients", {"alpha": "R", "phi": "R", "aberration_coefs": "env"})):
         it.translate(fn_name, kinds)
     it.guarded = False
+    if it.translate("_passively_rotate_grid", {"kxa": "R", "kya": "R", "rotation_angle": "R"}) != ("tuple", 2):
+        raise Untranslatable("_passively_rotate_grid does not return a pair")
+    if it.translate("polar_coordinates", {"kx": "R", "ky": "R"}) != ("tuple", 2):
+        raise Untranslatable("polar_coordinates does not return a pair")
     r1 = it.translate("polar_to_cartesian_aberrations", {"polar": "env"})
     r2 = it.translate("cartesian_to_polar_aberrations", {"cart": "env"})
     it.translate("merge_aberration_coefficients", {"init_coefs_polar": "env", "delta_coefs_cartesian": "env"})
@@ -959,7 +1064,9 @@ def generate():
     r = it2.translate("_torch_polar", {"m": "M"})
     if r != ("mtuple", 2):
         raise Untranslatable("_torch_polar does not return a pair of matrices")
+    fit_keys = translate_fit_tail(it2)
     out.extend(it2.defs)
+    out.append(f"/-- keys of the dict returned by fit_aberrations_from_shifts, in order -/\ndef FIT_RESULT_KEYS : List String :=\n  {str_list(fit_keys)}\n")
     out.append(f"/-- keys written by polar_to_cartesian_aberrations, in order -/\ndef POLAR_TO_CARTESIAN_KEYS : List String :=\n  {str_list(r1[1])}\n")
     out.append(f"/-- keys written by cartesian_to_polar_aberrations, in order -/\ndef CARTESIAN_TO_POLAR_KEYS : List String :=\n  {str_list(r2[1])}\n")
     names = [d.split()[1] for d in it.defs if d.startswith("def ") and not d.split()[1].endswith("_guards")
